@@ -1,1 +1,424 @@
--- property theorems for C18 (stub)
+import JanetModel.Sandbox.Model
+import JanetModel.Gen.Sandbox
+/-
+C18 - sandboxed capabilities stay disabled.
+
+* `flags_monotone`, `spawn_inherits`, `thread_keeps_parent_flags`: no transition of the flag-word model clears a bit;
+  a new thread starts with (a superset of) its parent's word.
+* `checker_sound`: for EVERY graph and certificate accepted by `certOK`, every execution from an entry point that
+  reaches an OS-level call `c` does so with a flag word in which no requirement group of `c` is completely disabled;
+  `checker_sound_entry`: …in particular if the group was disabled when the core function was entered, `c` is not
+  reached (the path ended in the panic of a `janet_sandbox_assert` before).
+* `gen_certOK` etc.: the per-run obligations on the graph regenerated from the current tree, by kernel evaluation.
+-/
+namespace JanetModel.Props.C18
+open JanetModel.Sandbox
+
+/-! ### bit-mask lemmas -/
+
+theorem subMask_iff {r f : Nat} : subMask r f = true ↔ r &&& f = r := by
+  unfold subMask; exact beq_iff_eq
+
+theorem subMask_refl (f : Nat) : subMask f f = true := by
+  rw [subMask_iff]; exact Nat.and_self f
+
+theorem subMask_trans {a b c : Nat} (h1 : subMask a b = true) (h2 : subMask b c = true) : subMask a c = true := by
+  rw [subMask_iff] at *
+  calc a &&& c = (a &&& b) &&& c := by rw [h1]
+    _ = a &&& (b &&& c) := Nat.and_assoc a b c
+    _ = a &&& b := by rw [h2]
+    _ = a := h1
+
+theorem subMask_zero (f : Nat) : subMask 0 f = true := by
+  rw [subMask_iff]; exact Nat.zero_and f
+
+theorem subMask_or_left (f x : Nat) : subMask f (f ||| x) = true := by
+  rw [subMask_iff]
+  apply Nat.eq_of_testBit_eq
+  intro i
+  simp only [Nat.testBit_and, Nat.testBit_or]
+  cases f.testBit i <;> simp
+
+/-- an assert of `m` that is passed shows that every group meeting `m` has an enabled capability -/
+theorem assert_gives {f m g : Nat} (hp : assertPasses f m = true) (hg : (g &&& m != 0) = true) : subMask g f = false := by
+  unfold assertPasses at hp
+  have hp' : f &&& m = 0 := beq_iff_eq.mp hp
+  cases hs : subMask g f with
+  | false => rfl
+  | true =>
+    exfalso
+    rw [subMask_iff] at hs
+    have : g &&& m = 0 := by
+      calc g &&& m = (g &&& f) &&& m := by rw [hs]
+        _ = g &&& (f &&& m) := Nat.and_assoc g f m
+        _ = 0 := by rw [hp']; exact Nat.and_zero g
+    rw [this] at hg
+    simp at hg
+
+theorem holds_imp {ks : List Nat} {f g' : Nat} (hk : holds ks f) (hi : imp g' ks = true) : subMask g' f = false := by
+  unfold imp at hi
+  rw [List.any_eq_true] at hi
+  obtain ⟨g, hg, hsub⟩ := hi
+  cases hs : subMask g' f with
+  | false => rfl
+  | true =>
+    have := subMask_trans hsub hs
+    rw [hk g hg] at this
+    cases this
+
+theorem holds_impAll {ks gs : List Nat} {f : Nat} (hk : holds ks f) (hi : impAll gs ks = true) : holds gs f := by
+  intro g' hg'
+  unfold impAll at hi
+  rw [List.all_eq_true] at hi
+  exact holds_imp hk (hi g' hg')
+
+theorem not_dead_of_holds {ks : List Nat} {f : Nat} (hk : holds ks f) : ks.contains 0 = false := by
+  cases h : ks.contains 0 with
+  | false => rfl
+  | true =>
+    have hm : 0 ∈ ks := by simpa using h
+    have := hk 0 hm
+    rw [subMask_zero] at this
+    cases this
+
+theorem holds_nil (f : Nat) : holds [] f := by
+  intro g hg; cases hg
+
+/-! ### the flag word never loses a bit -/
+
+theorem sandboxOp_mono {fl f fl' : Nat} (h : sandboxOp fl f = some fl') : subMask fl fl' = true := by
+  unfold sandboxOp at h
+  split at h
+  · cases h
+  · cases h; exact subMask_or_left fl f
+
+/-- the sandbox capability guards `sandbox` itself -/
+theorem sandboxOp_guarded (fl f : Nat) (h : fl &&& capSandbox ≠ 0) : sandboxOp fl f = none := by
+  unfold sandboxOp
+  have : (fl &&& capSandbox != 0) = true := bne_iff_ne.mpr h
+  rw [if_pos this]
+
+theorem step_length_le (s : Sys) (o : SysOp) : s.length ≤ (s.step o).length := by
+  cases o with
+  | sandbox tid f =>
+    simp only [Sys.step]
+    split
+    · split <;> simp
+    · exact Nat.le_refl _
+  | spawn tid =>
+    simp only [Sys.step]
+    split
+    · simp
+    · exact Nat.le_refl _
+  | other tid => exact Nat.le_refl _
+
+theorem step_monotone (s : Sys) (o : SysOp) (tid fl : Nat) (h : s[tid]? = some fl) :
+    ∃ fl', (s.step o)[tid]? = some fl' ∧ subMask fl fl' = true := by
+  have hlt : tid < s.length := by
+    rcases List.getElem?_eq_some_iff.mp h with ⟨hl, _⟩
+    exact hl
+  cases o with
+  | sandbox t f =>
+    cases ht : s[t]? with
+    | none => simp only [Sys.step, ht]; exact ⟨fl, h, subMask_refl fl⟩
+    | some flt =>
+      cases hso : sandboxOp flt f with
+      | none => simp only [Sys.step, ht, hso]; exact ⟨fl, h, subMask_refl fl⟩
+      | some flt' =>
+        simp only [Sys.step, ht, hso]
+        by_cases hEq : t = tid
+        · subst hEq
+          rw [h] at ht
+          cases ht
+          refine ⟨flt', ?_, sandboxOp_mono hso⟩
+          simp [List.getElem?_set, hlt]
+        · refine ⟨fl, ?_, subMask_refl fl⟩
+          rw [List.getElem?_set_ne hEq]
+          exact h
+  | spawn t =>
+    cases ht : s[t]? with
+    | none => simp only [Sys.step, ht]; exact ⟨fl, h, subMask_refl fl⟩
+    | some flt =>
+      simp only [Sys.step, ht]
+      refine ⟨fl, ?_, subMask_refl fl⟩
+      rw [List.getElem?_append_left hlt]
+      exact h
+  | other t => exact ⟨fl, h, subMask_refl fl⟩
+
+/-- ★ No sequence of operations, by any threads, clears a bit of any thread's flag word. -/
+theorem flags_monotone (ops : List SysOp) : ∀ (s : Sys) (tid fl : Nat), s[tid]? = some fl →
+    ∃ fl', (s.run ops)[tid]? = some fl' ∧ subMask fl fl' = true := by
+  induction ops with
+  | nil => intro s tid fl h; exact ⟨fl, h, subMask_refl fl⟩
+  | cons o os ih =>
+    intro s tid fl h
+    obtain ⟨fl1, h1, hm1⟩ := step_monotone s o tid fl h
+    obtain ⟨fl2, h2, hm2⟩ := ih (s.step o) tid fl1 h1
+    exact ⟨fl2, h2, subMask_trans hm1 hm2⟩
+
+/-- ★ A thread started by `tid` begins with exactly its parent's flag word … -/
+theorem spawn_inherits (s : Sys) (tid fl : Nat) (h : s[tid]? = some fl) :
+    (s.step (.spawn tid))[s.length]? = some fl := by
+  simp only [Sys.step, h]
+  simp
+
+/-- … and therefore, whatever happens afterwards, always has at least the capabilities disabled that its parent had
+    disabled when it was started. -/
+theorem thread_keeps_parent_flags (s : Sys) (tid fl : Nat) (h : s[tid]? = some fl) (ops : List SysOp) :
+    ∃ fl', ((s.step (.spawn tid)).run ops)[s.length]? = some fl' ∧ subMask fl fl' = true :=
+  flags_monotone ops _ _ _ (spawn_inherits s tid fl h)
+
+/-! ### soundness of the certificate checker -/
+
+section sound
+variable {need : String → String → List Nat} {G : Graph} {C : Cert}
+
+theorem nodeOK_of_lt (h : certOK need G C = true) {n : Nat} (hn : n < G.size) : nodeOK need G C n = true := by
+  unfold certOK at h
+  rw [Bool.and_eq_true] at h
+  have := h.1
+  rw [List.all_eq_true] at this
+  exact this n (List.mem_range.mpr hn)
+
+/-- the four conjuncts of `nodeOK` -/
+theorem nodeOK_parts {n : Nat} (h : nodeOK need G C n = true) :
+    ((G.node n).succs.all (fun s => (G.node s).fn == (G.node n).fn) = true) ∧
+    ((!C.isPure (G.node n).fn || (match (G.node n).op with
+                       | .havoc => false
+                       | .call g => C.isPure g
+                       | _ => true)) = true) ∧
+    ((match (G.node n).op with
+       | .call g => (G.node (G.fnEntry g)).fn == g
+       | _ => true) = true) ∧
+    (((C.k n).contains 0 ||
+      (match (G.node n).op with
+       | .nop => (G.node n).succs.all (fun s => impAll (C.k s) (C.k n))
+       | .libc fn nm => (G.node n).succs.all (fun s => impAll (C.k s) (C.k n)) && (need fn nm).all (fun r => imp r (C.k n))
+       | .assert m => (G.node n).succs.all (fun s => (C.k s).all (fun g' => g' &&& m != 0 || imp g' (C.k n)))
+       | .havoc => (G.node n).succs.all (fun s => (C.k s).isEmpty)
+       | .call g => impAll (C.fpre g) (C.k n) && impAll (C.k (G.fnEntry g)) (C.fpre g) &&
+           (G.node n).succs.all (fun s => (C.k s).all (fun g' => (C.isPure g && imp g' (C.k n)) || imp g' (C.fpost g)))
+       | .ret => impAll (C.fpost (G.node n).fn) (C.k n))) = true) := by
+  unfold nodeOK at h
+  simp only [Bool.and_eq_true] at h
+  exact ⟨h.1.1.1, h.1.1.2, h.1.2, h.2⟩
+
+theorem succ_fn {n s : Nat} (h : nodeOK need G C n = true) (hs : s ∈ (G.node n).succs) : (G.node s).fn = (G.node n).fn := by
+  have := (nodeOK_parts h).1
+  rw [List.all_eq_true] at this
+  exact beq_iff_eq.mp (this s hs)
+
+/-- Invariant carried along an activation. -/
+theorem reach_inv (h : certOK need G C = true) {n F n' F' : Nat} (hr : Reach G n F n' F') :
+    holds (C.k n) F →
+    holds (C.k n') F' ∧ (G.node n').fn = (G.node n).fn ∧ (C.isPure (G.node n).fn = true → F' = F) := by
+  induction hr with
+  | refl n F => intro hk; exact ⟨hk, rfl, fun _ => rfl⟩
+  | @nop n F s n' F' hlt hop hs _ ih =>
+    intro hk
+    have hok := nodeOK_of_lt h hlt
+    have hp := (nodeOK_parts hok).2.2.2
+    rw [not_dead_of_holds hk, Bool.false_or, hop] at hp
+    simp only [] at hp
+    rw [List.all_eq_true] at hp
+    obtain ⟨a, b, c⟩ := ih (holds_impAll hk (hp s hs))
+    have hf := succ_fn hok hs
+    exact ⟨a, by rw [b, hf], fun hpure => c (by rw [hf]; exact hpure)⟩
+  | @libc n F s n' F' fn nm hlt hop hs _ ih =>
+    intro hk
+    have hok := nodeOK_of_lt h hlt
+    have hp := (nodeOK_parts hok).2.2.2
+    rw [not_dead_of_holds hk, Bool.false_or, hop] at hp
+    simp only [Bool.and_eq_true] at hp
+    have hp1 := hp.1
+    rw [List.all_eq_true] at hp1
+    obtain ⟨a, b, c⟩ := ih (holds_impAll hk (hp1 s hs))
+    have hf := succ_fn hok hs
+    exact ⟨a, by rw [b, hf], fun hpure => c (by rw [hf]; exact hpure)⟩
+  | @assert n F s n' F' m hlt hop hpass hs _ ih =>
+    intro hk
+    have hok := nodeOK_of_lt h hlt
+    have hp := (nodeOK_parts hok).2.2.2
+    rw [not_dead_of_holds hk, Bool.false_or, hop] at hp
+    simp only [] at hp
+    rw [List.all_eq_true] at hp
+    have hs' := hp s hs
+    rw [List.all_eq_true] at hs'
+    have hks : holds (C.k s) F := by
+      intro g' hg'
+      have := hs' g' hg'
+      rw [Bool.or_eq_true] at this
+      cases this with
+      | inl hm => exact assert_gives hpass hm
+      | inr hi => exact holds_imp hk hi
+    obtain ⟨a, b, c⟩ := ih hks
+    have hf := succ_fn hok hs
+    exact ⟨a, by rw [b, hf], fun hpure => c (by rw [hf]; exact hpure)⟩
+  | @havoc n F F1 s n' F' hlt hop _ hs _ ih =>
+    intro hk
+    have hok := nodeOK_of_lt h hlt
+    have hp := (nodeOK_parts hok).2.2.2
+    rw [not_dead_of_holds hk, Bool.false_or, hop] at hp
+    simp only [] at hp
+    rw [List.all_eq_true] at hp
+    have hemp := hp s hs
+    have hks : holds (C.k s) F1 := by
+      intro g' hg'
+      rw [List.isEmpty_iff] at hemp
+      rw [hemp] at hg'
+      cases hg'
+    obtain ⟨a, b, _⟩ := ih hks
+    have hf := succ_fn hok hs
+    refine ⟨a, by rw [b, hf], fun hpure => ?_⟩
+    have hpu := (nodeOK_parts hok).2.1
+    rw [hpure, hop] at hpu
+    simp at hpu
+  | @call n F g r F1 s n' F' hlt hop _ hrlt hret hs _ ih1 ih2 =>
+    intro hk
+    have hok := nodeOK_of_lt h hlt
+    have hparts := nodeOK_parts hok
+    have hp := hparts.2.2.2
+    rw [not_dead_of_holds hk, Bool.false_or, hop] at hp
+    simp only [Bool.and_eq_true] at hp
+    obtain ⟨⟨hpre, hentry⟩, hsucc⟩ := hp
+    have hkpre := holds_impAll hk hpre
+    have hkent := holds_impAll hkpre hentry
+    obtain ⟨hkr, hfr, hpr⟩ := ih1 hkent
+    -- at the return node
+    have hokr : nodeOK need G C r = true := nodeOK_of_lt h hrlt
+    have hpr2 := (nodeOK_parts hokr).2.2.2
+    rw [not_dead_of_holds hkr, Bool.false_or, hret] at hpr2
+    simp only [] at hpr2
+    have hfg : (G.node (G.fnEntry g)).fn = g := by
+      have := hparts.2.2.1
+      rw [hop] at this
+      exact beq_iff_eq.mp this
+    rw [hfr, hfg] at hpr2
+    have hkpost := holds_impAll hkr hpr2
+    rw [List.all_eq_true] at hsucc
+    have hs' := hsucc s hs
+    rw [List.all_eq_true] at hs'
+    have hks : holds (C.k s) F1 := by
+      intro g' hg'
+      have := hs' g' hg'
+      rw [Bool.or_eq_true] at this
+      cases this with
+      | inl hm =>
+        rw [Bool.and_eq_true] at hm
+        have hF : F1 = F := hpr (by rw [hfg]; exact hm.1)
+        rw [hF]
+        exact holds_imp hk hm.2
+      | inr hi => exact holds_imp hkpost hi
+    obtain ⟨a, b, c⟩ := ih2 hks
+    have hf := succ_fn hok hs
+    refine ⟨a, by rw [b, hf], fun hpure => ?_⟩
+    have hpu := hparts.2.1
+    rw [hpure, hop] at hpu
+    simp only [Bool.not_true, Bool.false_or] at hpu
+    have hF1 : F1 = F := hpr (by rw [hfg]; exact hpu)
+    rw [c (by rw [hf]; exact hpure), hF1]
+
+theorem obs_inv (h : certOK need G C = true) {n F c F' : Nat} (ho : Obs G n F c F') :
+    holds (C.k n) F → holds (C.k c) F' := by
+  induction ho with
+  | here hr => intro hk; exact (reach_inv h hr hk).1
+  | @inside n F n1 F1 g c F' hr hlt1 hop _ ih =>
+    intro hk
+    have hk1 := (reach_inv h hr hk).1
+    have hok : nodeOK need G C n1 = true := nodeOK_of_lt h hlt1
+    have hp := (nodeOK_parts hok).2.2.2
+    rw [not_dead_of_holds hk1, Bool.false_or, hop] at hp
+    simp only [Bool.and_eq_true] at hp
+    exact ih (holds_impAll (holds_impAll hk1 hp.1.1) hp.1.2)
+
+/-- ★ Soundness, for every graph and certificate: an OS-level call reached from an entry point is reached with a flag
+    word in which none of its requirement groups is completely disabled. -/
+theorem checker_sound (need : String → String → List Nat) (G : Graph) (C : Cert) (h : certOK need G C = true)
+    (f : Nat) (hf : f ∈ G.entries) (F0 c F : Nat) (fn nm : String)
+    (hobs : Obs G (G.fnEntry f) F0 c F) (hlt : c < G.size) (hc : (G.node c).op = .libc fn nm)
+    (R : Nat) (hR : R ∈ need fn nm) : subMask R F = false := by
+  have hent : (C.k (G.fnEntry f)) = [] := by
+    unfold certOK at h
+    rw [Bool.and_eq_true] at h
+    have := h.2
+    rw [List.all_eq_true] at this
+    exact List.isEmpty_iff.mp (this f hf)
+  have hk0 : holds (C.k (G.fnEntry f)) F0 := by rw [hent]; exact holds_nil F0
+  have hkc := obs_inv h hobs hk0
+  have hok : nodeOK need G C c = true := nodeOK_of_lt h hlt
+  have hp := (nodeOK_parts hok).2.2.2
+  rw [not_dead_of_holds hkc, Bool.false_or, hc] at hp
+  simp only [Bool.and_eq_true] at hp
+  have hneed := hp.2
+  rw [List.all_eq_true] at hneed
+  exact holds_imp hkc (hneed R hR)
+
+end sound
+
+/-! ### executions never clear a bit either (semantics only, no certificate) -/
+
+theorem reach_mono {G : Graph} {n F n' F' : Nat} (hr : Reach G n F n' F') : subMask F F' = true := by
+  induction hr with
+  | refl n F => exact subMask_refl F
+  | nop _ _ _ _ ih => exact ih
+  | libc _ _ _ _ ih => exact ih
+  | assert _ _ _ _ _ ih => exact ih
+  | havoc _ _ hg _ _ ih => exact subMask_trans hg ih
+  | call _ _ _ _ _ _ _ ih1 ih2 => exact subMask_trans ih1 ih2
+
+theorem obs_mono {G : Graph} {n F c F' : Nat} (ho : Obs G n F c F') : subMask F F' = true := by
+  induction ho with
+  | here hr => exact reach_mono hr
+  | inside hr _ _ _ ih => exact subMask_trans (reach_mono hr) ih
+
+/-- ★ In terms of the flag word at the moment the core function is entered: if a requirement group of `c` is
+    completely disabled then, no execution from that entry point reaches `c` (every path ends in a sandbox panic, or
+    never gets there). -/
+theorem checker_sound_entry (need : String → String → List Nat) (G : Graph) (C : Cert) (h : certOK need G C = true)
+    (f : Nat) (hf : f ∈ G.entries) (F0 c F : Nat) (fn nm : String) (hlt : c < G.size) (hc : (G.node c).op = .libc fn nm)
+    (R : Nat) (hR : R ∈ need fn nm) (hdis : subMask R F0 = true) : ¬ Obs G (G.fnEntry f) F0 c F := by
+  intro hobs
+  have h1 := checker_sound need G C h f hf F0 c F fn nm hobs hlt hc R hR
+  have h2 := subMask_trans hdis (obs_mono hobs)
+  rw [h1] at h2
+  cases h2
+
+/-! ### non-vacuity -/
+
+/-- a two-function graph: entry `f0` asserts fs-write then calls `f1`, which removes a file -/
+def exNodes : Array Node := #[⟨0, .assert 32, [1]⟩, ⟨0, .call 1, [2]⟩, ⟨0, .ret, []⟩,
+                      ⟨1, .libc "f1" "remove", [4]⟩, ⟨1, .ret, []⟩]
+def exG : Graph := ⟨5, fun n => exNodes.getD n ⟨0, .nop, []⟩, fun f => #[0, 3].getD f 0, [0]⟩
+def exC : Cert := ⟨fun n => #[[], [32], [32], [32], [32]].getD n [], fun f => #[[], [32]].getD f [], fun f => #[[32], [32]].getD f [],
+  fun _ => true⟩
+example : certOK need exG exC = true := by decide
+/-- the call is really reachable when fs-write is enabled (flag word 64 = only fs-read disabled) -/
+example : Obs exG 0 64 3 64 :=
+  .inside (.assert (n := 0) (s := 1) (by decide) rfl (by decide) (by decide) (.refl 1 64)) (g := 1) (by decide) rfl (.here (.refl 3 64))
+/-- without the assert the checker rejects: the shape of `os/rm` on the pinned tree -/
+example : certOK need ⟨2, fun n => #[⟨0, .libc "os_remove" "remove", [1]⟩, ⟨0, .ret, []⟩].getD n ⟨0, .nop, []⟩, fun _ => 0, [0]⟩
+    ⟨fun _ => [], fun _ => [], fun _ => [], fun _ => true⟩ = false := by
+  decide
+example : sandboxOp 0 96 = some 96 ∧ sandboxOp 1 96 = none := by decide
+
+/-! ### per-run obligations on the regenerated graph -/
+
+open JanetModel.Gen.Sandbox in
+/-- ★ the certificate for the current tree is accepted -/
+theorem gen_certOK : certOK need graph cert = true := by decide +kernel
+
+open JanetModel.Gen.Sandbox in
+theorem gen_classified : classifiedAll externals externalsIdx = true := by decide +kernel
+
+open JanetModel.Gen.Sandbox in
+theorem gen_tables : definesOK defines capTable = true ∧ tableEq options keywordTable = true ∧ flagWritesOK flagWrites = true := by
+  decide +kernel
+
+open JanetModel.Gen.Sandbox in
+/-- the instance of `checker_sound_entry` for the program as it is now -/
+theorem sandbox_enforced (f : Nat) (hf : f ∈ graph.entries) (F0 c F : Nat) (fn nm : String)
+    (hlt : c < graph.size) (hc : (graph.node c).op = .libc fn nm) (R : Nat) (hR : R ∈ need fn nm) (hdis : subMask R F0 = true) :
+    ¬ Obs graph (graph.fnEntry f) F0 c F :=
+  checker_sound_entry need graph cert gen_certOK f hf F0 c F fn nm hlt hc R hR hdis
+
+end JanetModel.Props.C18
